@@ -107,6 +107,11 @@ def check_setitem(ctx):
     checks = [n for n in cfg.nodes if n.ast is not None and n.kind == "stmt" and any(isinstance(c, ast.Call) and norm(c.func).endswith("_check_normalization") for c in walk_local(n.ast))]
     ok_check = bool(checks) and all(cfg.dominates(w, c) for c in checks) and any(cfg.dominates(c, cfg.exit) for c in checks)
     ctx.check(ok_check, R2, fi.key + ":check-after-write", "the write is followed by the normalisation check on every normal path", "an element can be written and the method return normally without the normalisation check having run", where)
+    # the vector object itself is not replaced inside __setitem__: the rollback writes the saved element back into
+    # `self._amplitude_vector`, which only restores the state if that is still the object the element was read from
+    rebinds = [n for n in body_walk(fi.node) if isinstance(n, (ast.Assign, ast.AugAssign, ast.AnnAssign)) and any(isinstance(t, ast.Attribute) and t.attr == FIELD and norm(t.value) == "self" for t in (n.targets if isinstance(n, ast.Assign) else [n.target]))]
+    rebinds += [n for n in body_walk(fi.node) if isinstance(n, ast.Call) and dotted(n.func) in ("setattr", "object.__setattr__") and len(n.args) >= 2 and isinstance(n.args[1], ast.Constant) and n.args[1].value == FIELD]
+    ctx.check(not rebinds, R2, fi.key + ":same-object", "the amplitude container is edited in place, never replaced, during an assignment", f"`{short(rebinds[0]) if rebinds else ''}` replaces the amplitude container between the write and the check: on rejection the saved element is written into a different object (or cannot be, e.g. a symbol into a complex array), so the object is not left as it was", f"{fi.module.relpath}:{rebinds[0].lineno}" if rebinds else fi)
     handlers = [n for n in cfg.nodes if n.kind == "handler" and ("ValueError" in norm(n.ast.type) if n.ast.type is not None else True)]
     if not handlers:
         ctx.violation(R2, fi.key + ":rollback", "the ValueError of the normalisation check is not handled: nothing restores the old value", where)
@@ -250,6 +255,13 @@ def check_normalisation(ctx):
     inst = [norm(c) for c in body_walk(isn.node) if isinstance(c, ast.Call) and dotted(c.func) == "isinstance"]
     ok_probe = ("complex" in probes) or any("complex" in i or "Number" in i or "Complex" in i for i in inst)
     ctx.check(ok_probe, R4, isn.key, "the numeric probe accepts complex numbers", f"_is_number probes with {probes or inst}: complex numeric amplitudes are not recognised as numbers, so they are left out of the 'already exceeds 1' test", isn)
+    # sympy's capitalised predicates (`is_Number`, `is_Float`, ...) and the Number classes are true for *atomic* numbers only:
+    # a symbol-free expression such as 1.0*I, sqrt(3)/2 or exp(I*pi/4) is a number but not a `Number`, so classifying entries
+    # with them leaves complex / irrational numeric amplitudes out of the "numeric part already exceeds 1" test
+    atomic = [n for n in body_walk(isn.node) if isinstance(n, ast.Attribute) and n.attr in ("is_Number", "is_Float", "is_Integer", "is_Rational", "is_NumberSymbol", "is_Atom", "is_real", "is_Symbol")]
+    atomic += [c for c in body_walk(isn.node) if isinstance(c, ast.Call) and dotted(c.func) == "isinstance" and len(c.args) == 2 and any(x in norm(c.args[1]) for x in ("sympy.Number", "sympy.Float", "sympy.Integer", "sympy.Rational", "Number)", "Float", "numbers.Real", "float", "int"))  and "complex" not in norm(c.args[1]) and "Complex" not in norm(c.args[1])]
+    atomic = [a for a in atomic if any(isinstance(r, ast.Return) and any(x is a for x in ast.walk(r)) for r in body_walk(isn.node))]
+    ctx.check(not atomic, R4, isn.key + ":complete", "every symbol-free entry counts as numeric", f"_is_number decides with `{short(atomic[0]) if atomic else ''}`: that is true for atomic numbers only, so symbol-free expressions (1.0*I, sqrt(3)/2) are treated as symbolic and a vector whose fixed entries already exceed probability 1 is accepted", f"{isn.module.relpath}:{atomic[0].lineno}" if atomic else isn)
     gp = repo.func(f"{WF}:Wavefunction.get_probabilities")
     r = returned_exprs(gp.node)
     ok_gp = len(r) == 1 and isinstance(r[0], ast.BinOp) and isinstance(r[0].op, ast.Pow) and is_const(r[0].right, 2) and norm(r[0].left) in ("np.abs(self.amplitudes)", "abs(self.amplitudes)", "np.absolute(self.amplitudes)")
@@ -265,6 +277,13 @@ def run(ctx):
     loader_accepts_path_and_file(ctx, R5, f"{WF}:load_wavefunction")
     sv = ctx.repo.func(f"{WF}:save_wavefunction")
     ctx.check("convert_array_to_dict(wavefunction.amplitudes)" in norm(sv.node), R5, sv.key + ":amplitudes", "the amplitudes are what is saved", "save_wavefunction does not store the wavefunction's amplitudes", sv)
+    # what is saved is the complex amplitude: no one-sided "is the imaginary part negligible" decision on the way
+    from ..lints import one_sided_signed_part_tests
+
+    hits = one_sided_signed_part_tests(ctx.repo, ("utils", "wavefunction"))
+    for fi, t in hits:
+        ctx.violation(R5, f"{fi.key}:one-sided:{short(t, 40)}", f"`{short(t)}` decides about an imaginary part by a one-sided comparison: every negative imaginary part counts as negligible, so amplitudes such as -i/sqrt(2) are saved without it and do not come back", f"{fi.module.relpath}:{t.lineno}")
+    ctx.ok(R5, "utils,wavefunction:one-sided-imag", f"no one-sided test on an imaginary part ({len(hits)} found)", "")
     ctx.floor("C12-D1", 3)
     ctx.floor("C12-D2", 4)
     ctx.floor("C12-D3", 20)
